@@ -190,6 +190,14 @@ def body(case, rec):
     sc2, tc2, near2, info2 = pairs.classify(g, tt2, tx2, st2, sx2)
     # no accuracy bound is needed here: the comparison is between two evaluations that must use the same rule in the
     # same relative position, whatever its accuracy (the unchanged tree agrees to 1e-13 also for extreme size ratios)
+    if case['sym'] == 'reflect':
+        # a reflection exchanges the roles of the two panels in the splitting (first-longer <-> second-longer branch):
+        # the two evaluations use different rules, so they agree only as far as each is accurate -- inside the domain
+        # of C01 (aspect <= 32, no short panel close to a much longer one)
+        if not all(pairs.aspect_ok(e) for e in (t1, s1, t2, s2)) or pairs.close_disjoint_excluded(info, sc) or \
+                pairs.close_disjoint_excluded(info2, sc2):
+            rec.exclude('reflection_outside_the_accuracy_domain')
+            return
     exact = case['exact'] and g.polygon
     cj = dict(case)
     cj['_pair'] = {'test': [tt, tx], 'trial': [st_, sx], 'image_test': [tt2, tx2], 'image_trial': [st2, sx2]}
